@@ -1,7 +1,13 @@
 """C06 - strict encoding rejects exactly the constraint-violating molecules (DESIGN 7.6)."""
 ID = 'C06'
 LEVEL = 'other'
-TARGETS = ['selfies/bond_constraints.py::set_semantic_constraints', 'selfies/bond_constraints.py::get_bonding_capacity']
+TARGETS = ['selfies/bond_constraints.py::set_semantic_constraints',
+           'selfies/bond_constraints.py::get_bonding_capacity',
+           'selfies/encoder.py::_check_bond_constraints',
+           'selfies/mol_graph.py::Atom.bonding_capacity',
+           'selfies/mol_graph.py::MolecularGraph.get_bond_count',
+           'selfies/mol_graph.py::MolecularGraph.get_atoms',
+           'selfies/utils/smiles_utils.py::atom_to_smiles']
 EXPLANATION = (
     "BOUNDED stand-in (runtime property contract on the public encoder; not counted as proved) plus every deductive "
     "clause listed in coverage.clauses: for 8 constraint tables switched between calls inside one process (stale-memo "
